@@ -42,7 +42,26 @@ for c in sorted(glob.glob(os.path.join(R, "claims", "*.json"))):
     else:
         t_claims += f"| {pid} | (no evidence yet) | | | |\n"
 
-regions = {"fixed": t_fixed, "open": t_open, "seeded": t_seed, "claims": t_claims}
+t_built = ""
+for c in sorted(glob.glob(os.path.join(R, "claims", "*.json"))):
+    pid = os.path.basename(c)[:-5]
+    cl = json.load(open(c))
+    ev = os.path.join(R, "evidence", pid + ".json")
+    thms = []
+    streams = []
+    oracles = []
+    if os.path.exists(ev):
+        cv = json.load(open(ev))["coverage"]
+        thms = [t["name"].split(".")[-1] for t in cv.get("theorems", [])]
+        streams = [s_["name"] + ("" if s_["in_domain"] else " (out of domain: drift only)") for s_ in cv.get("streams", [])]
+        oracles = [o["name"] for o in cv.get("oracles", [])]
+    t_built += f"**{pid}** (as built; narrative and mutant tables in `notes/{pid}.md`)\n\n"
+    t_built += f"* what the check gives: {cl.get('text','')}\n"
+    t_built += f"* trusted base / modelled rather than verified: {cl.get('note','')}\n"
+    t_built += f"* theorems in `Props/{pid}.lean` ({len(thms)}): " + ", ".join(f"`{t}`" for t in thms) + "\n"
+    t_built += f"* correspondence streams: " + (", ".join(f"`{x}`" for x in streams) or "—") + "\n"
+    t_built += f"* oracles on the implementation: " + (", ".join(f"`{x}`" for x in oracles) or "—") + "\n\n"
+regions = {"fixed": t_fixed, "open": t_open, "seeded": t_seed, "claims": t_claims, "asbuilt": t_built}
 p = os.path.join(R, "DESIGN.md")
 s = open(p).read()
 for k, v in regions.items():
